@@ -30,7 +30,7 @@ struct lbuf *ex_lbuf(void) { return LB; }
 #define MAXF 16400
 static char in[MAXF], want[MAXF + 2];
 static int inlen, wantlen;
-static int shortmode;	/* the first write() of the target is cut short: 1 byte, half, all but one (it must be retried from where it stopped) */
+static int shortmode;	/* the first write() of the target is cut short: 1 byte, half, all but one, or 1 byte twice in a row (it must be retried from where it stopped) */
 
 static void roundtrip(int beg_sym, int prevlen)
 {
@@ -79,7 +79,11 @@ static void roundtrip(int beg_sym, int prevlen)
 	if (shortmode) {
 		env_fault_n = ENV_NFAULT;
 		env_fault_kind[env_calls + 1] = ENV_SHORT;	/* the call after the open() */
-		env_fault_arg[env_calls + 1] = shortmode == 1 ? 1 : shortmode == 2 ? -1 : -2;
+		env_fault_arg[env_calls + 1] = shortmode == 1 || shortmode == 4 ? 1 : shortmode == 2 ? -1 : -2;
+		if (shortmode == 4) {		/* and the retry is cut short as well */
+			env_fault_kind[env_calls + 2] = ENV_SHORT;
+			env_fault_arg[env_calls + 2] = 1;
+		}
 	}
 	fd = env_open("out", O_WRONLY | O_CREAT, 0600);
 	symx_assert(fd >= 0, "open output");
@@ -115,7 +119,7 @@ void harness(void)
 	chunk = symx_u8("chunk");		/* read() returns at most this many bytes at a time */
 	symx_assume(chunk >= 1 && chunk <= N + 1);
 	env_read_chunk = symx_conc(chunk);
-	shortmode = symx_conc(symx_u8("short") % 4);
+	shortmode = symx_conc(symx_u8("short") % 5);
 	prev = symx_u8("prev");			/* previous length of the target; N+4 = does not exist */
 	symx_assume(prev <= N + 4);
 	prev = symx_conc(prev);
